@@ -2,8 +2,8 @@ SPEC = dict(
     claimed=True,
     title='Measured fan limits follow the RPM curve; configured limits always win',
     props_file='Props/C13.v', props_mod='Props.C13',
-    proof_files=['Proofs/Limits.v', 'Drv/Limits.v'],
-    tie_vo=[],
+    proof_files=['Proofs/Limits.v', 'Drv/Limits.v', 'Proofs/LimitsBridge.v'],
+    tie_vo=['Proofs/LimitsBridge.vo'],
     drivers=[dict(name='limits', drv_mod='Drv.Limits', drv_file='Drv/Limits.v', shard=150,
                   args={'quick': ['n=900'], 'thorough': ['n=30000']},
                   timeout={'quick': 600, 'thorough': 3000})],
@@ -20,7 +20,7 @@ SPEC = dict(
                  'C13_start needs every key <= 255 (PWM values); C13_max needs no range assumption',
                  'config-wins is stated for call sequences without force=true (the only forced call in fan2go was controller.go SetMinPwm(offset,true), defect D1 handled under C01/C02)'],
     trusted_base=['hand-written model coq/Model/Fan.v + coq/Model/Limits.v of NewFan, the limit getters/setters, ComputePwmBoundaries, AttachFanRpmCurveData; agreement observed on the generated cases',
-                  'Print Assumptions: closed under the global context except the kernel float primitives behind f2i'],
+                  'Print Assumptions of every C13 theorem: only the kernel primitives PrimFloat.float/abs/div/eqb/ltb/frshiftexp/normfr_mantissa and PrimInt63.int/eqb/land/lsr (they occur in the type of the fan record and in f2i); no FloatAxioms, no classical axioms, none of our own'],
     partial='',
     finding_codes={16: 'D16'},
     finding_text={'D16': 're-attachment keeps the previously MEASURED start PWM (ComputePwmBoundaries treats fan.GetStartPwm() as a user override)'},
